@@ -517,6 +517,9 @@ class FormParameter:  # pylint: disable=too-many-instance-attributes
 
     def validate(self):
         """Validates form data against the pool of enforcers."""
+        # The rules follow the members the form holds now
+        self._validations = SetDict()
+        self.enforcers = EnforcerPool.from_validations(self.name, self.validations)
         self.enforcers.enforce(self.form())
 
     @property
